@@ -187,6 +187,39 @@ def packet_rules(ctx, prog, rule_pair, rule_len, rule_align):
         return out
     sw = arms(None, None)
     pairs = {(short(a or ""), short(b or "")) for _, a, b in sw}
+    # the same selection inside a closure built here (`.map(|bs| if last_flush { bs.all_bytes() } else { .. })`): the
+    # closure captures last_flush
+    import panic_rules
+    cctx = panic_rules.closure_context(prog)
+    for cp, (owner, ops, recv) in cctx.items():
+        if owner.path != f.path or cp not in prog.fns:
+            continue
+        g = prog.fns[cp]
+        Rg = Resolver(g)
+        for bi in g.cfg():
+            t = g.blocks[bi]["term"]
+            if t["k"] != "switch":
+                continue
+            dl = op_place(t["discr"])
+            if dl is None:
+                continue
+            _, d = panic_rules.translate_closure_tree(prog, g, Rg.place(dl))
+            if strip(d) != ("param", 2):
+                continue
+            e = switch_edges(g, bi)
+
+            def first_call_g(b):
+                for _ in range(4):
+                    if b is None:
+                        return None
+                    tt = g.blocks[b]["term"]
+                    if tt["k"] == "call":
+                        return callee_of(tt)
+                    if tt["k"] != "goto":
+                        return None
+                    b = tt["target"]
+                return None
+            pairs.add((short(first_call_g(e["otherwise"]) or ""), short(first_call_g(e.get("0")) or "")))
     want = {("ByteStreamWriteBuffer::all_bytes", "ByteStreamWriteBuffer::full_bytes"), ("ByteStreamWriteBuffer::get_all_bytes", "ByteStreamWriteBuffer::get_full_bytes")}
     ctx.ob(rule_pair, "announce-drain-pairing/%s" % short(f.path), pairs == want,
            "selections on last_flush (true-arm, false-arm): %s; announced size and drained bytes must both be (all, full)" % sorted(pairs))
@@ -290,17 +323,45 @@ def raw_reader_count(ctx, prog, rule, path="<pc_reader_raw::PointCloudReaderRaw<
     ctx.ob(rule, "yield-sites/%s" % short(f.path), len(yields) >= 1, "%d Some(Ok(point)) exits, %d increments of read" % (len(yields), len(incs)), nontrivial=False)
     other = cfg_without_edges(f, [(gb, more)])
     still = reach(other, [0])
+    # the increment belongs to the successful pop: under "pop_point returned Ok" every path to the return passes exactly
+    # one increment, under "pop_point returned Err" none is reachable
+    from simple_rules import assume_result_of_call, fn_view
+    pops = [bi for bi, t in f.calls(lambda c, t: c.endswith("::pop_point"))]
+    corr = None
+    if len(pops) == 1 and incs:
+        P = pops[0]
+        g_ok = assume_result_of_call(f, P, True)
+        g_err = assume_result_of_call(f, P, False)
+        inc_blocks = {b for b, _ in incs}
+        rets = set(f.return_blocks())
+        after = f.cfg().get(P, [])
+        skip_ok = find_path(g_ok, after, rets, inc_blocks)
+        reach_err = reach(g_err, after)
+        twice = any(find_path(g_ok, g_ok.get(b, []), {b2}, set()) for b in inc_blocks for b2 in inc_blocks)
+        corr = skip_ok is None and not (inc_blocks & reach_err) and not twice
     for yb, ys in yields:
         ok1 = yb not in still
         # exactly one increment dominates the yield and lies in the same arm
         doms = [(b, s) for b, s in incs if b == yb or f.dominates(b, yb)]
-        ok2 = len(doms) == 1
+        ok2 = len(doms) == 1 or bool(corr)
         ctx.ob(rule, "yield-bounded/%s" % short(f.path), ok1 and ok2,
                "Some(Ok(..)) exit: reachable only when read < records = %s; increments of read on the way = %d (must be 1)" % (ok1, len(doms)), where=f.file_line(yb, ys))
     for b, s in incs:
         t = strip(R.rvalue(f.blocks[b]["stmts"][s]["rv"]))
         ok = t[0] == "binop" and t[1] == "Add" and self_field(t[2]) == "read" and const_val(t[3]) == 1
         ctx.ob(rule, "increment-by-one/%s" % short(f.path), ok, "read <- %s" % tree_str(t), where=f.file_line(b, s))
+
+
+def iter_is_plain(R, f, next_block):
+    """the iterator advanced in next_block walks its collection front to back without skipping (no rev/skip/filter/..)"""
+    if next_block is None or next_block < 0:
+        return False
+    t = f.blocks[next_block]["term"]
+    tr = R.operand(t["args"][0]) if t["k"] == "call" and t["args"] else None
+    if tr is None:
+        return False
+    bad = ("rev", "skip", "step_by", "filter", "take", "skip_while", "take_while", "chain", "cycle")
+    return not any(x[0] == "call" and x[1].rsplit("::", 1)[-1] in bad for x in leaves(tr))
 
 
 def pop_point_order(ctx, prog, rule):
@@ -315,12 +376,21 @@ def pop_point_order(ctx, prog, rule):
                 lo, hi = (strip(R.operand(o)) for o in st["rv"]["ops"])
                 rng = (const_val(lo), hi)
     ok_r = rng is not None and rng[0] == 0 and rng[1][0] == "call" and rng[1][1].endswith("::len") and self_field(rng[1][2][0]) == "pc.prototype"
-    ctx.ob(rule, "pop-range/%s" % short(f.path), ok_r, "values are popped for i in 0..pc.prototype.len(): %s" % (rng and tree_str(rng[1])))
+    import elems
+    pops_ = calls_where(f, lambda c, t, R: c.endswith("VecDeque::<T, A>::pop_front"))
+    by_iteration = False
+    for b in pops_:
+        e_ = elems.elem_of(R.operand(f.blocks[b]["term"]["args"][0]))
+        # `for queue in self.queues.iter_mut()`: every queue once, in order
+        by_iteration = e_ is not None and self_field(strip(e_[0])) == "queues" and not e_[1] and e_[2][0] == "next" and iter_is_plain(R, f, e_[2][1])
+    ctx.ob(rule, "pop-range/%s" % short(f.path), ok_r or by_iteration, "values are popped for i in 0..pc.prototype.len() (or by iterating self.queues in order): %s" % (rng and tree_str(rng[1])))
     pops = calls_where(f, lambda c, t, R: c.endswith("VecDeque::<T, A>::pop_front"))
     okp = False
     for b in pops:
         a = strip(R.operand(f.blocks[b]["term"]["args"][0]))
         okp = a[0] == "call" and a[1].endswith("index_mut") and self_field(a[2][0]) == "queues"
+        e_ = elems.elem_of(R.operand(f.blocks[b]["term"]["args"][0]))
+        okp = okp or (e_ is not None and self_field(strip(e_[0])) == "queues" and not e_[1])
     pushes = calls_where(f, lambda c, t, R: c.endswith("Vec::<T, A>::push") and strip(R.operand(t["args"][0])) == ("param", 2))
     okq = len(pushes) == 1 and len(pops) == 1 and f.dominates(pops[0], pushes[0])
     if okq:
